@@ -87,6 +87,8 @@ def sgrid_dataset(spec, kind, rng, with_comodo=False, entry_order_seed=None):
     import xarray as xr
 
     attrs = sgrid_attrs(spec, kind, rng, entry_order_seed)
+    # read from a file the integer attribute is a NumPy scalar (int32 in netCDF-3), written by hand a Python int
+    attrs["topology_dimension"] = rng.choice([int, int, np.int32, np.int64, np.int16])(attrs["topology_dimension"])
     sizes = {}
     for a, ax in spec.items():
         for p, d in ax["pos"].items():
